@@ -24,6 +24,13 @@
 //     setlabel|setunit <a> <str>|- ; setorigin <a> <d:hex>|- ; setpoly <a> <n> {<d:hex>} ; wdata <a> <seed> ; frows <d> <n> (modelled)
 //     wrow <d> <row> <seed> ; punit <p> <str>|- ; puncert <p> <d:hex>|- ; setrepo <s> <str>|- ; dimset <a> <i> <seed> ;
 //     forcecreated <o>|F <seconds>
+//   lsf <p> <K> <fk> <arg> ; llsf <h> <sl> <fk> <arg>      enumeration with a filter; fk: name notname id type (arg: <str>) | meta src (arg: <ref>)
+//   dimsf <a> set|range|sampled|alias|frame               DataArray::dimensions(filter) by descriptor kind
+//   posq <m> ; colq <d> <n> {<s:name>} <k> {<index>}       MultiTag::hasPositions / positionCount ; DataFrame::colIndex(names) / colName(indices)
+//   setlt <x> <lt> ; touchupd <o> set|force ; wrowbad <d> <row> row|type|many ; `none` instead of a <ref>: the none_t overload
+//   mk <b> A <name> <type> from <memtype> <n> <dtype|->    the template createDataArray(name, type, data, data_type)
+//   mk ... z                                              (A with a shape, D) the explicit Compression argument ; dim <a> frame <ref> <col>
+//   reopen def                                            File::open(path) with every argument defaulted
 //   sdata <a> <memtype> <n>                       template DataSet::setData(std::vector<T>(n)): resize to {n}, write  (modelled)
 //   adata <a> <memtype> <axis> <rank> <count..>   DataArray::appendData(memtype, buffer, count, axis)                  (modelled)
 //   flush ; reopen [rw|ro|other]     (C02; `reopen` = `reopen rw`; ro: the session stays read-only until the next reopen;
@@ -43,6 +50,8 @@
 #define NIXV_HIST_COMMON_HPP
 #include "common.hpp"
 #include <hdf5.h>
+#include <nix/util/filter.hpp>
+#include <cstring>
 #include <map>
 #include <set>
 #include <algorithm>
@@ -57,6 +66,7 @@ namespace hist {
 static std::string workdir;
 static std::string mode_ = "C03";       // which property's driver this is (C04: delete report)
 static bool read_only = false;
+static std::vector<std::string> last_raw;      // C08: the raw dump (everything but updated_at) after the previous line
 static std::vector<std::string> raw_at_open;   // the raw dump right after the last open (C02: a read-only session changes nothing)
 static nix::File file;
 static int file_serial = 0;
@@ -129,7 +139,7 @@ static std::string enc_lt(nix::LinkType t) {
 }
 
 static int dec_ref(const std::string &t) {     // -1 = none
-    if (t == "-") return -1;
+    if (t == "-" || t == "none") return -1;
     return (int)dec_int(t);
 }
 static bool is_bound(int k) { return k >= 0 && k < (int)hs.size() && hs[k].bound; }
@@ -200,6 +210,7 @@ template<typename E> static std::string ords(const std::vector<E> &v) {
 // ---- the canonical dump ----
 #define SAFE(expr) ([&]() -> std::string { try { return (expr); } catch (...) { return "!"; } })()
 #define SAFE0(expr) ([&]() -> std::string { try { return (expr); } catch (...) { return "[]"; } })()
+static std::string b01(bool b) { return b ? "1" : "0"; }
 static std::string ostr(const boost::optional<std::string> &o) { return o ? enc_str(*o) : "-"; }
 static std::string dbls(const std::vector<double> &v) {
     std::string o = "[";
@@ -442,6 +453,7 @@ static size_t nelms(const nix::NDSize &e) { size_t n = 1; for (size_t i = 0; i <
 // Used only to compare the file with ITSELF: before a close and after the reopen (same process, or another one).
 struct Raw {
     std::vector<std::string> lines;
+    bool with_updated = true;      // updated_at is left out when a dump is used to judge a REJECTED call (whole seconds)
     static std::string tm(time_t t) { return std::to_string((long long)t); }
     static std::string od(const boost::optional<double> &o) { return o ? enc_dbl(*o) : "-"; }
     static std::string variant(const nix::Variant &v) {
@@ -459,7 +471,8 @@ struct Raw {
     template<typename E> static std::string idof(const E &e) { if (!e) return "-"; try { return e.id(); } catch (...) { return "!"; } }
     template<typename E> static std::string idsof(const std::vector<E> &v) { std::string o = "["; for (auto &e : v) o += idof(e) + ","; return o + "]"; }
     template<typename E> std::string head(const char *K, const E &e, const std::string &parent) {
-        return std::string(K) + " id=" + SAFE(e.id()) + " in=" + parent + " created=" + SAFE(tm(e.createdAt()));
+        return std::string(K) + " id=" + SAFE(e.id()) + " in=" + parent + " created=" + SAFE(tm(e.createdAt())) +
+               (with_updated ? " updated=" + SAFE(tm(e.updatedAt())) : std::string());
     }
     template<typename E> std::string named(const E &e) {
         return " name=" + SAFE(enc_str(e.name())) + " type=" + SAFE(enc_str(e.type())) + " def=" + SAFE(ostr(e.definition()));
@@ -554,6 +567,9 @@ struct Raw {
             std::string l = head("D", d, me) + named(d);
             l += " cols=" + SAFE(([&]() { std::string o = "["; for (auto &c : d.columns()) o += enc_str(c.name) + ":" + enc_dtype(c.dtype) + ":" + enc_str(c.unit) + ","; return o + "]"; })());
             l += " rows=" + SAFE(std::to_string(d.rows()));
+            // the vector overloads: every name to its index and back
+            l += " colidx=" + SAFE(([&]() { std::vector<std::string> ns; for (auto &c : d.columns()) ns.push_back(c.name);
+                std::vector<unsigned> ix = d.colIndex(ns); std::string o = "["; for (unsigned x : ix) o += std::to_string(x) + ","; return o + "]" + strs(d.colName(ix)); })());
             l += " cells=" + SAFE(([&]() { std::string o; nix::ndsize_t n = d.rows();
                 for (nix::ndsize_t i = 0; i < n; i++) { o += "("; for (auto &v : d.readRow(i)) o += variant(v) + ","; o += ")"; }
                 char buf[32]; std::snprintf(buf, sizeof buf, "%08x/%zu", fnv(o), o.size()); return std::string(buf); })());
@@ -568,6 +584,7 @@ struct Raw {
             std::string l = head("M", m, me) + named(m);
             l += " pos=" + ([&]() -> std::string { try { return idof(m.positions()); } catch (...) { return "-"; } })();
             l += " ext=" + ([&]() -> std::string { try { return idof(m.extents()); } catch (...) { return "-"; } })();
+            l += " haspos=" + SAFE(b01(m.hasPositions())) + " npos=" + SAFE(std::to_string(m.positionCount()));
             tagcommon(m, SAFE(m.id()), l);
         }
         for (auto &g : b.groups()) {
@@ -579,7 +596,8 @@ struct Raw {
     }
     void run(nix::File &f) {
         lines.push_back("F format=" + SAFE(f.format()) + " version=" + SAFE(([&]() { std::string o; for (int x : f.version()) o += std::to_string(x) + "."; return o; })()) +
-                        " created=" + SAFE(tm(f.createdAt())));
+                        " created=" + SAFE(tm(f.createdAt())) + (with_updated ? " updated=" + SAFE(tm(f.updatedAt())) : std::string()) +
+                        " loc=" + SAFE(enc_str(f.location())));
         size_t nb = 0; try { nb = (size_t)f.blockCount(); } catch (...) {}
         for (size_t i = 0; i < nb; i++) { try { block(f.getBlock(i)); } catch (...) { lines.push_back("B !"); } }
         size_t ns = 0; try { ns = (size_t)f.sectionCount(); } catch (...) {}
@@ -587,7 +605,7 @@ struct Raw {
     }
 };
 
-static std::vector<std::string> rawdump(nix::File &f) { Raw r; r.run(f); return r.lines; }
+static std::vector<std::string> rawdump(nix::File &f, bool with_updated = true) { Raw r; r.with_updated = with_updated; r.run(f); return r.lines; }
 
 // the first difference of two raw dumps as "<kind>.<field>" (or "-"): a label only, never an id or a time
 static std::string raw_diff(const std::vector<std::string> &a, const std::vector<std::string> &b) {
@@ -634,6 +652,51 @@ static bool other_process_dump(const std::string &m, std::vector<std::string> &o
     return ended && rc == 0;
 }
 
+
+// ---- enumerations with a non-default filter (ImplContainer::getEntities: candidate && filter) ----
+struct FSpec { std::string kind; std::string s; };      // kind: name notname id type meta src ; s: the string (meta / src: an id)
+template<typename E> struct Traits { static const bool named = true, typed = true, meta = true, src = true; };
+template<> struct Traits<nix::Block> { static const bool named = true, typed = true, meta = true, src = false; };
+template<> struct Traits<nix::Section> { static const bool named = true, typed = true, meta = false, src = false; };
+template<> struct Traits<nix::Source> { static const bool named = true, typed = true, meta = true, src = false; };
+template<> struct Traits<nix::Property> { static const bool named = true, typed = false, meta = false, src = false; };
+template<> struct Traits<nix::Feature> { static const bool named = false, typed = false, meta = false, src = false; };
+template<typename E, bool> struct MkName { static std::function<bool(const E &)> mk(const FSpec &, bool) { refuse("driver::kind"); } };
+template<typename E> struct MkName<E, true> { static std::function<bool(const E &)> mk(const FSpec &f, bool neg) {
+    if (!neg) return nix::util::NameFilter<E>(f.s);
+    nix::util::NameFilter<E> nf(f.s);
+    return [nf](const E &e) mutable { return !nf(e); }; } };
+template<typename E, bool> struct MkType { static std::function<bool(const E &)> mk(const FSpec &) { refuse("driver::kind"); } };
+template<typename E> struct MkType<E, true> { static std::function<bool(const E &)> mk(const FSpec &f) {
+    // the argument of TypeFilter is a regular expression: quote it
+    std::string q; for (char ch : f.s) { if (std::strchr(".[]{}()\\*+?|^$", ch)) q += '\\'; q += ch; }
+    return nix::util::TypeFilter<E>(q); } };
+template<typename E, bool> struct MkMeta { static std::function<bool(const E &)> mk(const FSpec &) { refuse("driver::kind"); } };
+template<typename E> struct MkMeta<E, true> { static std::function<bool(const E &)> mk(const FSpec &f) { return nix::util::MetadataFilter<E>(f.s); } };
+template<typename E, bool> struct MkSrc { static std::function<bool(const E &)> mk(const FSpec &) { refuse("driver::kind"); } };
+template<typename E> struct MkSrc<E, true> { static std::function<bool(const E &)> mk(const FSpec &f) { return nix::util::SourceFilter<E>(f.s); } };
+template<typename E> static std::function<bool(const E &)> make_filter(const FSpec &f) {
+    if (f.kind == "id") return nix::util::IdFilter<E>(f.s);
+    if (f.kind == "name") return MkName<E, Traits<E>::named>::mk(f, false);
+    if (f.kind == "notname") return MkName<E, Traits<E>::named>::mk(f, true);
+    if (f.kind == "type") return MkType<E, Traits<E>::typed>::mk(f);
+    if (f.kind == "meta") return MkMeta<E, Traits<E>::meta>::mk(f);
+    if (f.kind == "src") return MkSrc<E, Traits<E>::src>::mk(f);
+    throw std::logic_error("bad filter " + f.kind);
+}
+// the answer of a filtered enumeration: what X::ys(filter) returns, and the get(index) loop restricted by the same predicate
+template<typename E, typename LS, typename GI> static std::string filtered_answer(const FSpec &f, const LS &ls, size_t n, const GI &geti) {
+    std::function<bool(const E &)> flt = make_filter<E>(f);
+    std::string a = ords(ls(flt));
+    std::vector<std::string> idx;
+    for (size_t i = 0; i < n; i++) {
+        try { E e = geti(i); if (e && flt(e)) idx.push_back(ordof(e)); } catch (...) { idx.push_back("!"); }
+    }
+    std::string o = "[";
+    for (size_t i = 0; i < idx.size(); i++) { if (i) o += " "; o += idx[i]; }
+    return "flt=" + a + " idx=" + o + "]";
+}
+
 // ---- containers ----
 struct Cont {
     std::function<bool(const std::string &)> has, del;
@@ -641,6 +704,7 @@ struct Cont {
     std::function<std::string(size_t)> geti;
     std::function<size_t()> cnt;
     std::function<std::string()> ls;
+    std::function<std::string(const FSpec &)> lsf;
     std::function<bool(int)> hash, delh;
     std::function<std::string(size_t, std::string &, std::string &, bool &)> geti_full;  // -> ordinal; name, id, has(handle)
     bool checked_index = true;
@@ -658,6 +722,8 @@ struct Cont {
             throw nix::OutOfBounds("index past the end"); } \
         return ordof(RECV.get##Name(i)); }; \
     c.ls = [=]() { return ords(RECV.listFn()); }; \
+    c.lsf = [=](const FSpec &f) { return filtered_answer<ETYPE>(f, [=](const std::function<bool(const ETYPE &)> &q) { return RECV.listFn(q); }, \
+                                                                 (size_t)RECV.countFn(), [=](size_t i) { return RECV.get##Name(i); }); }; \
     c.hash = [=](int k) { return RECV.has##Name(ARGFN(k)); }; \
     c.delh = [=](int k) mutable { return RECV.delete##Name(ARGFN(k)); }; \
     c.geti_full = [=](size_t i, std::string &nm, std::string &id, bool &hh) { \
@@ -718,10 +784,10 @@ struct LCont {
     std::function<std::string(size_t)> geti;
     std::function<size_t()> cnt;
     std::function<std::string()> ls;
+    std::function<std::string(const FSpec &)> lsf;
     std::function<void(const std::vector<int> &)> set;
     std::function<std::string(size_t, std::string &, std::string &, bool &)> geti_full;
 };
-static std::string b01(bool b) { return b ? "1" : "0"; }
 
 #define LREFS(RECV) \
     c.add = [=](int k) mutable { RECV.addReference(argA(k)); }; \
@@ -734,6 +800,8 @@ static std::string b01(bool b) { return b ? "1" : "0"; }
     c.geti = [=](size_t i) { return ordof(RECV.getReference(i)); }; \
     c.cnt = [=]() { return (size_t)RECV.referenceCount(); }; \
     c.ls = [=]() { return ords(RECV.references()); }; \
+    c.lsf = [=](const FSpec &f) { return filtered_answer<nix::DataArray>(f, [=](const std::function<bool(const nix::DataArray &)> &q) { return RECV.references(q); }, \
+                                                                          (size_t)RECV.referenceCount(), [=](size_t i) { return RECV.getReference(i); }); }; \
     c.set = [=](const std::vector<int> &v) mutable { std::vector<nix::DataArray> l; for (int k : v) l.push_back(argA(k)); RECV.references(l); }; \
     c.geti_full = [=](size_t i, std::string &nm, std::string &id, bool &hh) { \
         nix::DataArray e = RECV.getReference(i); if (!e) return std::string("-"); \
@@ -752,6 +820,8 @@ static std::string b01(bool b) { return b ? "1" : "0"; }
         return ordof(RECV.getSource(i)); }; \
     c.cnt = [=]() { return (size_t)RECV.sourceCount(); }; \
     c.ls = [=]() { return ords(RECV.sources()); }; \
+    c.lsf = [=](const FSpec &f) { return filtered_answer<nix::Source>(f, [=](const std::function<bool(const nix::Source &)> &q) { return RECV.sources(q); }, \
+                                                                       (size_t)RECV.sourceCount(), [=](size_t i) { return RECV.getSource(i); }); }; \
     c.set = [=](const std::vector<int> &v) mutable { std::vector<nix::Source> l; for (int k : v) l.push_back(argR(k)); RECV.sources(l); }; \
     c.geti_full = [=](size_t i, std::string &nm, std::string &id, bool &hh) { \
         nix::Source e = RECV.getSource(i); if (!e) return std::string("-"); \
@@ -768,6 +838,8 @@ static std::string b01(bool b) { return b ? "1" : "0"; }
     c.geti = [=](size_t i) { return ordof(g.get##Name(i)); }; \
     c.cnt = [=]() { return (size_t)g.countFn(); }; \
     c.ls = [=]() { return ords(g.listFn()); }; \
+    c.lsf = [=](const FSpec &f) { return filtered_answer<ETYPE>(f, [=](const std::function<bool(const ETYPE &)> &q) { return g.listFn(q); }, \
+                                                                 (size_t)g.countFn(), [=](size_t i) { return g.get##Name(i); }); }; \
     c.set = [=](const std::vector<int> &v) mutable { std::vector<ETYPE> l; for (int k : v) l.push_back(ARGFN(k)); g.listFn(l); }; \
     c.geti_full = [=](size_t i, std::string &nm, std::string &id, bool &hh) { \
         ETYPE e = g.get##Name(i); if (!e) return std::string("-"); \
@@ -895,12 +967,31 @@ static std::string do_mk(const std::vector<std::string> &t) {
         }
         bind_new(k, hs[k].p.id());
     }
+    else if (P == 'B' && K == 'A' && t.at(5) == "from") {
+        // the header template Block::createDataArray(name, type, data, data_type): shape and (default) type from the data
+        nix::DataType mt = dec_dtype(t.at(6));
+        size_t n = (size_t)dec_u64(t.at(7));
+        nix::DataType dt = t.at(8) == "-" ? nix::DataType::Nothing : dec_dtype(t.at(8));
+        switch (mt) {
+        case nix::DataType::Double: hs[k].a = hs[pk].b.createDataArray(name, type, std::vector<double>(n, 1.5), dt); break;
+        case nix::DataType::Float: hs[k].a = hs[pk].b.createDataArray(name, type, std::vector<float>(n, 1.5f), dt); break;
+        case nix::DataType::Int32: hs[k].a = hs[pk].b.createDataArray(name, type, std::vector<int32_t>(n, 3), dt); break;
+        case nix::DataType::Int64: hs[k].a = hs[pk].b.createDataArray(name, type, std::vector<int64_t>(n, 3), dt); break;
+        case nix::DataType::UInt8: hs[k].a = hs[pk].b.createDataArray(name, type, std::vector<uint8_t>(n, 3), dt); break;
+        case nix::DataType::String: hs[k].a = hs[pk].b.createDataArray(name, type, std::vector<std::string>(n, "x"), dt); break;
+        default: throw std::logic_error("mk A from: memory type");
+        }
+        bind_new(k, hs[k].a.id());
+    }
     else if (P == 'B' && K == 'A') {
         nix::DataType dt = dec_dtype(t.at(5));
         size_t rank = (size_t)dec_u64(t.at(6));
         std::vector<nix::ndsize_t> dims;
         for (size_t i = 0; i < rank; i++) dims.push_back(dec_u64(t.at(7 + i)));
         // NDSize(vector) of an empty vector leaves its pointer uninitialised (bad free): use the default constructor
+        if (t.back() == "z" && t.size() == 8 + rank)       // the explicit compression argument
+            hs[k].a = hs[pk].b.createDataArray(name, type, dt, rank == 0 ? nix::NDSize() : nix::NDSize(dims), nix::Compression::DeflateNormal);
+        else
         hs[k].a = hs[pk].b.createDataArray(name, type, dt, rank == 0 ? nix::NDSize() : nix::NDSize(dims));
         bind_new(k, hs[k].a.id());
     }
@@ -911,6 +1002,9 @@ static std::string do_mk(const std::vector<std::string> &t) {
             nix::Column c; c.name = dec_str(t.at(6 + 3 * i)); c.dtype = dec_dtype(t.at(7 + 3 * i)); c.unit = dec_str(t.at(8 + 3 * i));
             cols.push_back(c);
         }
+        if (t.back() == "z" && t.size() == 7 + 3 * n)
+            hs[k].d = hs[pk].b.createDataFrame(name, type, cols, n % 2 ? nix::Compression::DeflateNormal : nix::Compression::None);
+        else
         hs[k].d = hs[pk].b.createDataFrame(name, type, cols);
         bind_new(k, hs[k].d.id());
     }
@@ -999,6 +1093,13 @@ static void set_dim_fields(nix::DataArray &a, size_t i, unsigned seed) {
     }
 }
 
+static FSpec dec_fspec(const std::vector<std::string> &t, size_t i) {
+    FSpec f; f.kind = t.at(i);
+    if (f.kind == "meta" || f.kind == "src") { int k = dec_ref(t.at(i + 1)); f.s = is_bound(k) ? hs[k].id : std::string(NOID); }
+    else f.s = dec_sarg(t.at(i + 1));
+    return f;
+}
+
 // ---- setters ----
 #define WITH_META(H_, CALL) \
     switch (H_.kind) { \
@@ -1021,6 +1122,70 @@ static std::string do_line(const std::vector<std::string> &t, bool &maybe_delete
     if (c == "cnt") { Cont k = container(t.at(1), t.at(2).at(0)); return std::to_string(k.cnt()); }
     if (c == "ls") { Cont k = container(t.at(1), t.at(2).at(0)); return k.ls(); }
     if (c == "chk") return chk(t.at(1), t.at(2).at(0));
+    if (c == "lsf") { Cont k = container(t.at(1), t.at(2).at(0)); return k.lsf(dec_fspec(t, 3)); }
+    if (c == "llsf") { LCont k = lcontainer((int)dec_int(t.at(1)), t.at(2)); return k.lsf(dec_fspec(t, 3)); }
+    if (c == "dimsf") {
+        H &h = recv((int)dec_int(t.at(1)), "A");
+        const std::string want = t.at(2);
+        auto kind_of = [](const nix::Dimension &d) -> std::string {
+            switch (d.dimensionType()) {
+            case nix::DimensionType::Set: return "set"; case nix::DimensionType::Sample: return "sampled";
+            case nix::DimensionType::Range: { nix::RangeDimension r; r = d; return r.alias() ? "alias" : "range"; }
+            case nix::DimensionType::DataFrame: return "frame"; }
+            return "?"; };
+        std::vector<nix::Dimension> ds = h.a.dimensions([&](const nix::Dimension &d) { return kind_of(d) == want; });
+        std::string o = "[";
+        for (size_t i = 0; i < ds.size(); i++) { if (i) o += " "; o += std::to_string(ds[i].index()) + ":" + kind_of(ds[i]); }
+        // the same through getDimension(i), i = 1 .. dimensionCount()
+        std::string o2 = "[";
+        size_t n = (size_t)h.a.dimensionCount(), m = 0;
+        for (size_t i = 1; i <= n; i++) { nix::Dimension d = h.a.getDimension(i); if (kind_of(d) == want) { if (m++) o2 += " "; o2 += std::to_string(i) + ":" + kind_of(d); } }
+        return "flt=" + o + "] idx=" + o2 + "]";
+    }
+    if (c == "posq") {
+        H &h = recv((int)dec_int(t.at(1)), "M");
+        std::string np; try { np = enc_u64(h.m.positionCount()); } catch (...) { np = "!"; }
+        return "hp=" + b01(h.m.hasPositions()) + " np=" + np;
+    }
+    if (c == "colq") {
+        H &h = recv((int)dec_int(t.at(1)), "D");
+        // colIndex(vector<string>) for the given names, colName(vector<unsigned>) for the given indices; an unknown one: the call throws
+        size_t nn = (size_t)dec_u64(t.at(2));
+        std::vector<std::string> names; for (size_t i = 0; i < nn; i++) names.push_back(dec_str(t.at(3 + i)));
+        size_t ni = (size_t)dec_u64(t.at(3 + nn));
+        std::vector<unsigned> idx; for (size_t i = 0; i < ni; i++) idx.push_back((unsigned)dec_u64(t.at(4 + nn + i)));
+        std::string a, b;
+        try { std::vector<unsigned> r = h.d.colIndex(names); a = "["; for (size_t i = 0; i < r.size(); i++) { if (i) a += " "; a += std::to_string(r[i]); } a += "]"; } catch (...) { a = "!"; }
+        try { b = strs(h.d.colName(idx)); } catch (...) { b = "!"; }
+        return "ci=" + a + " cn=" + b;
+    }
+    if (c == "setlt") { H &h = recv((int)dec_int(t.at(1)), "X"); h.x.linkType(dec_lt(t.at(2))); return "-"; }
+    if (c == "touchupd") {
+        H &h = recv((int)dec_int(t.at(1)), "BSRADTMGPX");
+        bool force = t.at(2) == "force";
+#define UPD(E) do { if (force) E.forceUpdatedAt(); else E.setUpdatedAt(); (void)E.updatedAt(); } while (0)
+        switch (h.kind) {
+        case 'B': UPD(h.b); break; case 'S': UPD(h.s); break; case 'R': UPD(h.r); break; case 'A': UPD(h.a); break; case 'D': UPD(h.d); break;
+        case 'T': UPD(h.t); break; case 'M': UPD(h.m); break; case 'G': UPD(h.g); break; case 'P': UPD(h.p); break; case 'X': UPD(h.x); break; }
+#undef UPD
+        return "-";
+    }
+    if (c == "wrowbad") {
+        // a DataFrame write that has to be refused: a row past the end, a string into a numeric column (or a number into a
+        // string column), more values than columns
+        H &h = recv((int)dec_int(t.at(1)), "D");
+        nix::ndsize_t row = dec_u64(t.at(2));
+        const std::string &how = t.at(3);
+        std::vector<nix::Variant> vs;
+        std::vector<nix::Column> cols = h.d.columns();
+        for (auto &col : cols) vs.push_back(col.dtype == nix::DataType::String ? nix::Variant(std::string("v")) : sample_value(col.dtype));
+        if (how == "type") { if (cols[0].dtype == nix::DataType::String) vs[0] = nix::Variant(1.5); else vs[0] = nix::Variant(std::string("no number")); }
+        else if (how == "many") vs.push_back(nix::Variant(int32_t(1)));
+        // more values than columns: the library builds a std::string from a null column name (std::logic_error), which this
+        // interpreter otherwise reserves for malformed script lines
+        try { h.d.writeRow(row, vs); } catch (const std::logic_error &e) { if (classify() == "std::logic_error") throw std::runtime_error(e.what()); throw; }
+        return "-";
+    }
     if (c[0] == 'l' && c != "ls") {
         int hk = (int)dec_int(t.at(1));
         const std::string &sl = t.at(2);
@@ -1052,12 +1217,15 @@ static std::string do_line(const std::vector<std::string> &t, bool &maybe_delete
         else { std::string s = dec_sarg(t.at(2)); if (h.kind == 'P') h.p.definition(s); else { WITH_NAMED(h, definition(s)) } }
         return "-";
     }
+    if (c == "setmeta" && t.at(2) == "none") { H &h = recv((int)dec_int(t.at(1)), "BRADTMG"); WITH_META(h, metadata(nix::none)) return "-"; }   // the none_t overload
     if (c == "setmeta") { H &h = recv((int)dec_int(t.at(1)), "BRADTMG"); nix::Section s = argS(dec_ref(t.at(2))); WITH_META(h, metadata(s)) return "-"; }
     if (c == "setmetas") { H &h = recv((int)dec_int(t.at(1)), "BRADTMG"); std::string s = dec_sarg(t.at(2)); WITH_META(h, metadata(s)) return "-"; }
+    if (c == "setlink" && t.at(2) == "none") { H &h = recv((int)dec_int(t.at(1)), "S"); h.s.link(nix::none); return "-"; }
     if (c == "setlink") { H &h = recv((int)dec_int(t.at(1)), "S"); h.s.link(argS(dec_ref(t.at(2)))); return "-"; }
     if (c == "setlinks") { H &h = recv((int)dec_int(t.at(1)), "S"); h.s.link(dec_sarg(t.at(2))); return "-"; }
     if (c == "setpos") { H &h = recv((int)dec_int(t.at(1)), "M"); h.m.positions(argA(dec_ref(t.at(2)))); return "-"; }
     if (c == "setposs") { H &h = recv((int)dec_int(t.at(1)), "M"); h.m.positions(dec_sarg(t.at(2))); return "-"; }
+    if (c == "setext" && t.at(2) == "none") { H &h = recv((int)dec_int(t.at(1)), "M"); h.m.extents(nix::none); return "-"; }
     if (c == "setext") { H &h = recv((int)dec_int(t.at(1)), "M"); h.m.extents(argA(dec_ref(t.at(2)))); return "-"; }
     if (c == "setexts") { H &h = recv((int)dec_int(t.at(1)), "M"); h.m.extents(dec_sarg(t.at(2))); return "-"; }
     if (c == "setdata") { H &h = recv((int)dec_int(t.at(1)), "X"); h.x.data(argA(dec_ref(t.at(2)))); return "-"; }
@@ -1111,6 +1279,7 @@ static std::string do_line(const std::vector<std::string> &t, bool &maybe_delete
         else if (k == "range") h.a.appendRangeDimension({1.0, 2.5, 4.0});
         else if (k == "sampled") h.a.appendSampledDimension(0.5);
         else if (k == "alias") h.a.appendAliasRangeDimension();
+        else if (k == "frame" && t.size() > 4) h.a.appendDataFrameDimension(argD(dec_ref(t.at(3))), (unsigned)dec_u64(t.at(4)));
         else if (k == "frame") h.a.appendDataFrameDimension(argD(dec_ref(t.at(3))));
         else throw std::logic_error("bad dimension kind " + k);
         return "-";
@@ -1295,6 +1464,7 @@ static void reset() {
     read_only = false;
     raw_at_open.clear();
     last_dump = dump();
+    last_raw = mode_ == "C08" ? rawdump(file, false) : std::vector<std::string>();
 }
 
 static std::string tail_of(const std::string &before, const std::string &now) {
@@ -1326,7 +1496,8 @@ static std::string answer(const std::vector<std::string> &t) {
         }
         read_only = kind == "ro";
         try {
-            file = nix::File::open(path, read_only ? nix::FileMode::ReadOnly : nix::FileMode::ReadWrite);
+            if (kind == "def") file = nix::File::open(path);            // every argument defaulted: ReadWrite, "hdf5", Auto, None
+            else file = nix::File::open(path, read_only ? nix::FileMode::ReadOnly : nix::FileMode::ReadWrite);
         } catch (...) {
             // the file cannot be opened again in this process (it was not really released by close)
             file = nix::File();
@@ -1335,6 +1506,7 @@ static std::string answer(const std::vector<std::string> &t) {
         }
         std::vector<std::string> raw_after = rawdump(file);
         raw_at_open = raw_after;
+        if (mode_ == "C08") last_raw = rawdump(file, false);
         if (raw_after != raw_before && same) { same = false; diff = raw_diff(raw_before, raw_after); }
         std::string before = last_dump;
         refresh_liveness(true);
@@ -1369,6 +1541,18 @@ static std::string answer(const std::vector<std::string> &t) {
         refresh_liveness(false);
         if (mode_ == "C04") head += delete_report(before, last_dump, was_alive);
     } else last_dump = dump();
+    if (mode_ == "C08") {
+        // a rejected call leaves no trace in ANYTHING the API shows: data, cells, labels, descriptors ... (the raw dump)
+        std::vector<std::string> raw_now = rawdump(file, false);
+        bool rejected = head.compare(0, 4, "ERR ") == 0 && head.compare(0, 12, "ERR driver::") != 0;
+        if (rejected && !last_raw.empty() && raw_now != last_raw && before == last_dump) {
+            std::string d = raw_diff(last_raw, raw_now);
+            last_raw = raw_now;
+            char buf[64]; std::snprintf(buf, sizeof buf, " t=1 h=%08x", fnv(last_dump));
+            return head + " rawtrace=" + d + buf;
+        }
+        last_raw = raw_now;
+    }
     return head + tail_of(before, last_dump);
 }
 
